@@ -139,7 +139,7 @@ func checkC13(c *Ctx, r *Report) {
 		viol := "UnpackImportsMap helper not found"
 		var ss []string
 		info := fi.Pkg.TypesInfo
-		ast.Inspect(fi.Decl, func(n ast.Node) bool {
+		w.inspectRegion(fi, func(n ast.Node) bool {
 			cl, ok := n.(*ast.CallExpr)
 			if !ok || calleeOfCall(info, cl) != pkgRaymond+".RegisterHelper" || len(cl.Args) != 2 {
 				return true
@@ -204,7 +204,7 @@ func checkC13(c *Ctx, r *Report) {
 		if fi := need(c, r, "C13.a", s.fn); fi != nil {
 			viol := fmt.Sprintf("%s is not sorted in %s", s.v, s.fn)
 			var ss []string
-			ast.Inspect(fi.Decl, func(n ast.Node) bool {
+			w.inspectRegion(fi, func(n ast.Node) bool {
 				if cl, ok := n.(*ast.CallExpr); ok && len(cl.Args) > 0 {
 					cn := calleeOfCall(fi.Pkg.TypesInfo, cl)
 					if (strings.HasPrefix(cn, "slices.Sort") || strings.HasPrefix(cn, "sort.")) && exprString(cl.Args[0]) == s.v {
@@ -267,7 +267,7 @@ func checkC13(c *Ctx, r *Report) {
 			if !(strings.HasPrefix(rel, "generator/") || strings.HasPrefix(rel, "core/pipeline") || strings.HasPrefix(rel, "core/metadata")) {
 				continue
 			}
-			ast.Inspect(fi.Decl, func(n ast.Node) bool {
+			w.inspectRegion(fi, func(n ast.Node) bool {
 				if bl, ok := n.(*ast.BasicLit); ok && strings.Contains(bl.Value, "%p") {
 					ps = append(ps, w.pos(bl.Pos()))
 					pv = fmt.Sprintf("%s: %%p formats an address (differs between runs)", w.pos(bl.Pos()))
